@@ -182,6 +182,7 @@ def reindex_database(
     error_files = error_file_whitelist.read_text().split("\n")
 
     num_of_updates = 0
+    pages_to_write_back = []
     for zorg_page_name, hash_ in file_to_hash.copy().items():
         # If this file has never been indexed OR the file contents have changed
         # since the last time it was indexed.
@@ -228,6 +229,8 @@ def reindex_database(
             _LOGGER.debug("Adding zorg file", file=zorg_page_name)
             session.repo.add_file(zorg_page)
             session.commit()
+            if zorg_page.events:
+                pages_to_write_back.append(zorg_page_name)
 
     if not cmd.paths:
         # A plain reindex covers the whole zettel directory, so any indexed
@@ -248,6 +251,12 @@ def reindex_database(
     if num_of_updates == 0:
         c.zprint("NO ZORG FILES HAVE BEEN MODIFIED")
 
+    # The hash of a file that is about to be rewritten (i.e. to add ZIDs or
+    # modify dates to it) is recorded by the handler that rewrites it. If we
+    # are interrupted before that happens, the next reindex run will notice
+    # that this file still needs to be processed.
+    for zorg_page_name in pages_to_write_back:
+        file_to_hash.pop(zorg_page_name, None)
     _write_file_hash_to_disk(file_hash_path, file_to_hash)
     c.atomic_write_text(
         error_file_whitelist, "\n".join(sorted(error_files))
@@ -293,6 +302,9 @@ def update_note_modify_dates(
         add_thing_to_first_line=_add_or_update_modify_date,
         get_thing=lambda _: today_short_date,
         log_message="Updating modify dates",
+        # If this file also contains new notes, then it will be rewritten (and
+        # its hash recorded) once more when their ZIDs are added.
+        should_record_hash=not event.has_new_notes,
     )
 
 
@@ -415,7 +427,12 @@ def _check_for_modified_notes(
             modified_notes.append(note)
     if modified_notes:
         zorg_page.events.append(
-            events.ModifiedZorgNotesEvent(zdir, zorg_page.path, modified_notes)
+            events.ModifiedZorgNotesEvent(
+                zdir,
+                zorg_page.path,
+                modified_notes,
+                has_new_notes=any(n.zid is None for n in zorg_page.notes),
+            )
         )
 
 
@@ -469,6 +486,7 @@ def _update_zo_file(
     add_thing_to_first_line: _AddThingToFirstLine,
     get_thing: _GetThing,
     log_message: str,
+    should_record_hash: bool = True,
 ) -> None:
     zlines = zo_path.read_text().split("\n")
     for note in notes_to_update:
@@ -490,6 +508,9 @@ def _update_zo_file(
         notes_to_update=len(notes_to_update),
     )
     c.atomic_write_text(zo_path, "\n".join(zlines))
+
+    if not should_record_hash:
+        return
 
     # Only refresh the hash of the file we just rewrote. Refreshing the hashes
     # of ALL files here would hide edits made to files that have not been
